@@ -126,6 +126,21 @@ impl std::io::Read for FaultReader {
 }
 
 fn run_parser<'a, R: lexpr::parse::Read<'a>>(mut p: Parser<R>, api: &str, out: &mut String) {
+    if api == "valuec" || api == "datumc" {
+        // keep calling the same parser after errors (call histories); report counts only
+        let (mut oks, mut errs, mut ended) = (0, 0, false);
+        let mut last = String::new();
+        for _ in 0..400 {
+            let r = if api == "valuec" { p.next_value() } else { p.next_datum().map(|o| o.map(Value::from)) };
+            match r {
+                Ok(Some(_)) => oks += 1,
+                Ok(None) => { ended = true; break; }
+                Err(e) => { errs += 1; last = e.to_string(); }
+            }
+        }
+        write!(out, "{{\"oks\":{},\"errs\":{},\"ended\":{},\"last_err\":\"{}\"}}", oks, errs, ended, last).unwrap();
+        return;
+    }
     out.push_str("{\"items\":[");
     let mut n = 0;
     loop {
@@ -156,7 +171,13 @@ fn main() {
             let opts = parse_opts(&a[2]);
             let src = a[3].as_str();
             let api = a[4].as_str();
-            let data = hex(&a[5]);
+            let data = if a[5] == "-" {
+                let mut s = String::new();
+                std::io::Read::read_to_string(&mut std::io::stdin(), &mut s).unwrap();
+                hex(s.trim())
+            } else {
+                hex(&a[5])
+            };
             let fail_at: Option<usize> = a.get(6).and_then(|s| s.parse().ok());
             if api == "single" {
                 let r = match src {
